@@ -35,8 +35,10 @@ import WcModel.Proofs.GlobList
   "for some fuel" — the walker's results grow with the fuel (`globParts_mono`), so the fuels of
   nested expansions merge; on a cyclic tree no single fuel serves every path, which is why the
   statement cannot fix one.  (The first-part plumbing of `C05_partial` is not repeated for it.)
-  NOT proved: `_GlobSplit` output satisfies `WFParts` and the two shape facts in `TopOK`
-  (checked on every pattern of the K5 split stream, see `checks/C05.py`).
+  `_GlobSplit` output satisfies `WFParts` and the two shape facts in `TopOK` for EVERY pattern
+  string and flag word: proved in `Properties/C05split.lean` (`split_WFParts`, `split_drive`,
+  `split_litText`, and `C05_partial_split` = this theorem with those hypotheses discharged for
+  parts produced by `globSplit`; the model of `_GlobSplit` is tied to glob.py by the K5 split stream).
   The Bash clause is validated in the thorough tier (`denoteTop` vs bash 5.2), not proved.
 -/
 namespace WcModel.C05
